@@ -132,7 +132,7 @@ PROPS = {
     },
     "C15": {
         "lean": ["Seccomp.Proofs.C15"],
-        "streams": [{"tool": "vprobe", "stream": "kernel", "profile": "sandbox", "quick": 80, "thorough": 2000, "thorough_seeds": 2, "args": ["-profile", "sandbox"]}],
+        "streams": [{"tool": "vprobe", "stream": "kernel", "profile": "sandbox", "quick": 240, "thorough": 3000, "thorough_seeds": 2, "args": ["-profile", "sandbox"]}],
         "trusted": ["the sandbox translator (harness/cmd/vextract/sandbox.go): statement subset of cmd/sandbox main → Gen/SandboxSkeleton.lean; the outcomes of parsePolicy / LoadFilter / cmd.Run are oracles of the world",
                     "exec and filter inheritance by the child image are kernel behaviour (assumed; exercised by the live runs)"],
         "assumptions": ["what a nil LoadFilter result means is C09; that the filter decides as the policy says is C01/C08; that the YAML path denotes the policy is C14",
